@@ -3,6 +3,8 @@
 usage: tools/run_seeded.py C01-a [C01 C02 ...] [--tier quick]"""
 import json, os, subprocess, sys
 V = os.path.dirname(os.path.dirname(os.path.abspath(__file__)))
+# SEED_REPO: a scratch worktree of /repo (git -C /repo worktree add --detach <dir> HEAD) so that /repo itself stays untouched
+REPO = os.environ.get("SEED_REPO", "/repo")
 args = [a for a in sys.argv[1:] if not a.startswith("--")]
 tier = "quick"
 for a in sys.argv[1:]:
@@ -13,29 +15,29 @@ checks = args[1:] or [json.load(open(os.path.join(V, "seeded", sid, "meta.json")
 patch = os.path.join(V, "seeded", sid, "patch_rebased.diff")
 if not os.path.exists(patch):
     patch = os.path.join(V, "seeded", sid, "patch.diff")
-st = subprocess.run(["git", "-C", "/repo", "status", "--porcelain"], capture_output=True, text=True).stdout.strip()
+st = subprocess.run(["git", "-C", REPO, "status", "--porcelain"], capture_output=True, text=True).stdout.strip()
 if st:
     print("repo not clean:", st)
     sys.exit(2)
-r = subprocess.run(["git", "-C", "/repo", "apply", patch], capture_output=True, text=True)
+r = subprocess.run(["git", "-C", REPO, "apply", patch], capture_output=True, text=True)
 if r.returncode != 0:
-    r = subprocess.run(["git", "-C", "/repo", "apply", "--3way", patch], capture_output=True, text=True)
-    st2 = subprocess.run(["git", "-C", "/repo", "status", "--porcelain"], capture_output=True, text=True).stdout
+    r = subprocess.run(["git", "-C", REPO, "apply", "--3way", patch], capture_output=True, text=True)
+    st2 = subprocess.run(["git", "-C", REPO, "status", "--porcelain"], capture_output=True, text=True).stdout
     if r.returncode != 0 or "UU " in st2:
         print("patch does not apply (needs a rebased patch_rebased.diff):", r.stderr[-300:])
-        subprocess.run(["git", "-C", "/repo", "reset", "-q", "--hard", "HEAD"])
+        subprocess.run(["git", "-C", REPO, "reset", "-q", "--hard", "HEAD"])
         sys.exit(2)
 res = {}
 try:
     for c in checks:
-        p = subprocess.run([os.path.join(V, "check"), c, "--tier", tier], capture_output=True, text=True, cwd=V)
+        p = subprocess.run([os.path.join(V, "check"), c, "--tier", tier], capture_output=True, text=True, cwd=V, env=dict(os.environ, VERIF_REPO=REPO))
         lines = [l for l in p.stdout.splitlines() if l.startswith("VIOLATION") or l.startswith("KNOWN-FINDING")]
         res[c] = {"rc": p.returncode, "lines": lines}
         print(sid, c, "rc=%d" % p.returncode, *lines, sep="\n  ")
         if p.returncode not in (0, 1):
             print(p.stderr[-2000:])
 finally:
-    subprocess.run(["git", "-C", "/repo", "reset", "-q", "--hard", "HEAD"])
-    subprocess.run(["git", "-C", "/repo", "status", "--short"])
+    subprocess.run(["git", "-C", REPO, "reset", "-q", "--hard", "HEAD"])
+    subprocess.run(["git", "-C", REPO, "status", "--short"])
     # evidence files were rewritten by runs against a modified tree: restore the committed ones
     subprocess.run(["git", "-C", V, "checkout", "--", "evidence"], capture_output=True)
